@@ -135,7 +135,15 @@ type Event struct {
 // Point is a scheduling point: the enabled set (canonical order) and the choice taken.
 type Point struct {
 	Enabled []int
+	Pend    []Pending // pending operation of every enabled goroutine (same order as Enabled)
 	Choice  int
+}
+
+// Pending is the operation a runnable goroutine will execute when chosen.
+type Pending struct {
+	Kind OpKind
+	Obj  int
+	Arg  int
 }
 
 // Chooser decides which of the enabled goroutines moves next. enabled is in
@@ -185,6 +193,7 @@ type Result struct {
 	Goroutines    int
 	Deadlock      bool
 	Cut           bool
+	Aborted       bool // the chooser abandoned the execution
 	Blocked       []BlockedInfo
 	Panics        []PanicInfo
 	Races         []RaceInfo
@@ -253,7 +262,7 @@ func Run(body func(), opt Options) *Result {
 		res.Buffered += len(cs.buf)
 	}
 	for _, g := range s.gs {
-		if g.state == gBlocked {
+		if g.state == gBlocked && !res.Aborted && !res.Cut {
 			res.Deadlock = true
 			res.Blocked = append(res.Blocked, BlockedInfo{G: g.ID, Kind: g.kind, Obj: g.obj, Site: g.block})
 		}
@@ -370,6 +379,19 @@ func (s *Sched) dispatch(from *G) {
 	c := 0
 	if s.opt.Chooser != nil {
 		c = s.opt.Chooser(s, en)
+		if c == -1 {
+			// the explorer abandons this execution (e.g. sleep-set blocked)
+			s.res.Aborted = true
+			s.cur = nil
+			s.quiesce <- struct{}{}
+			if from != nil && from.state != gDone {
+				<-from.resume
+				if s.poison {
+					panic(poisonSentinel)
+				}
+			}
+			return
+		}
 		if c < 0 || c >= len(en) {
 			s.res.Internal = fmt.Sprintf("chooser returned %d of %d at event %d", c, len(en), s.res.Events)
 			c = 0
@@ -381,10 +403,12 @@ func (s *Sched) dispatch(from *G) {
 	}
 	if s.opt.Record {
 		ids := make([]int, len(en))
+		pd := make([]Pending, len(en))
 		for i, e := range en {
 			ids[i] = e.ID
+			pd[i] = e.PendingOp()
 		}
-		s.res.Points = append(s.res.Points, Point{Enabled: ids, Choice: c})
+		s.res.Points = append(s.res.Points, Point{Enabled: ids, Pend: pd, Choice: c})
 	}
 	s.res.Events++
 	s.cur = g
@@ -718,6 +742,14 @@ func Yield() {
 	}
 	g := s.arrive(OpYield, -1, 0)
 	s.record(g, false)
+}
+
+// PendingOp describes what g will do when chosen next.
+func (g *G) PendingOp() Pending {
+	if g.woken {
+		return Pending{Kind: OpContinue, Obj: -1}
+	}
+	return Pending{Kind: g.kind, Obj: g.obj, Arg: g.arg}
 }
 
 // Cur returns the id of the running controlled goroutine (-1 in free mode).
